@@ -50,6 +50,10 @@ class Drift(Unsupported):
     pass
 
 
+class BudgetExceeded(Unsupported):
+    pass
+
+
 class GenericityViolation(Exception):
     """The code does something with a line number that is not available on an abstract ordered sort."""
 
@@ -242,6 +246,9 @@ class Engine:
         condition is used (a subset of the assumptions: `unsat` stays sound, we merely prune less; what
         is not pruned here becomes an obligation for the back ends with the complete path condition)."""
         t0 = time.time()
+        if getattr(self, "gen_deadline", None) and t0 > self.gen_deadline and not getattr(self, "discharging", False):
+            raise BudgetExceeded("generation budget exceeded (path explosion): verification conditions for this function "
+                              "are not generated; the bounded stand-in takes over")
         terms = [a for a in assumptions if full or not z3.is_quantifier(a)]
         if extra is not None:
             terms.append(extra)
@@ -254,13 +261,34 @@ class Engine:
                 s.add(a)
         for a in terms:
             s.add(a)
-        r = s.check()
+        if os.environ.get("PYVC_DUMPQ"):
+            open(os.environ["PYVC_DUMPQ"], "w").write(s.to_smt2())
+        if full:
+            # quantifiers + strings: z3's sequence solver does not always honour its timeout in-process, so this
+            # query runs in a child process that can be killed (an `unknown` only means "not pruned")
+            text = s.to_smt2()
+            memo = self.__dict__.setdefault("_ext_memo", {})
+            if text not in memo:
+                memo[text] = self._external_check(text)
+            r = memo[text]
+        else:
+            r = s.check()
         dt = time.time() - t0
         self.quick_time += dt
         self.quick_calls += 1
         if dt > 1.0 and os.environ.get("PYVC_DEBUG"):
             print(f"[slow quick_sat {dt:.1f}s -> {r}] extra={str(extra)[:200]} npc={len(assumptions)}", file=sys.stderr)
         return str(r)
+
+    def _external_check(self, smt2, seconds=2):
+        import subprocess
+        try:
+            p = subprocess.run(["/usr/bin/z3", f"-T:{seconds}", "-in"], input=smt2, capture_output=True, text=True,
+                               timeout=seconds + 3)
+            out = p.stdout.strip().splitlines()
+            return out[0] if out and out[0] in ("sat", "unsat") else "unknown"
+        except Exception:
+            return "unknown"
 
     def add_obligation(self, st: State, name, kind, goal, node=None, clause="", extra_assumptions=()):
         line = getattr(node, "lineno", 0) if node is not None else 0
@@ -1887,7 +1915,7 @@ class Engine:
                 raise
             except Unsupported as u:
                 cc = self.cur_contract
-                if cc is None or not cc.tolerate_unsupported or getattr(self, "discovery", 0):
+                if cc is None or not cc.tolerate_unsupported or getattr(self, "discovery", 0) or isinstance(u, BudgetExceeded):
                     raise
                 note = f"path dropped (unsupported: {u.reason}, line {getattr(u.node, 'lineno', '?')}) - left to the bounded stand-in"
                 if note not in self.unverified_paths:
